@@ -87,8 +87,8 @@ func mk(id string, pl []string, globs bool, pg []string) *vclient.Client {
 
 // regs is the read-only description of every client registration (the oracle's view).
 var regs = map[string]*vclient.Client{
-	"a-exact":         mk("a-exact", []string{"https://a-exact.example/logged-out", "https://a-exact.example/bye?src=op", "https://a-exact.example:8443/out/"}, false, nil),
-	"a-glob":          mk("a-glob", []string{"https://a-glob.example/logged-out", "https://a-glob.example/done?tenant=1"}, true, []string{"https://a-glob.example/*/out", "https://*.a-glob.example/logged-out", "https://a-glob.example/u/?/[a-c]"}),
+	"a-exact":         mk("a-exact", []string{"https://a-exact.example/logged-out", "https://a-exact.example/bye?src=op", "https://a-exact.example:8443/out/", "https://a-exact.example/app#/logged-out", "https://a-exact.example/spa?src=op#/bye?x=1"}, false, nil),
+	"a-glob":          mk("a-glob", []string{"https://a-glob.example/logged-out", "https://a-glob.example/done?tenant=1", "https://a-glob.example/app#/logged-out"}, true, []string{"https://a-glob.example/*/out", "https://*.a-glob.example/logged-out", "https://a-glob.example/u/?/[a-c]"}),
 	"a-globoff":       mk("a-globoff", []string{"https://a-globoff.example/logged-out", "https://a-globoff.example/done?tenant=1"}, false, []string{"https://a-globoff.example/*/out", "*"}),
 	"a-badglob-first": mk("a-badglob-first", []string{"https://a-badglob-first.example/logged-out"}, true, []string{"[", "https://a-badglob-first.example/*/out"}),
 	"a-badglob-last":  mk("a-badglob-last", []string{"https://a-badglob-last.example/logged-out"}, true, []string{"https://a-badglob-last.example/*/out", "https://a-badglob-last.example/x["}),
